@@ -19,7 +19,8 @@ Definition P0 : params :=
      exp_threshold := 667000000000000000; veto_threshold := 334000000000000000;
      min_initial_ratio := 0; min_deposit_ratio := 10000000000000000;
      cancel_ratio := 500000000000000000; cancel_dest := DBurn;
-     burn_prevote := false; burn_quorum := false; burn_veto := true |}.
+     burn_prevote := false; burn_quorum := false; burn_veto := true;
+     bad_inactive_dequeued := false; bad_active_dequeued_by_key := false |}.
 
 (* x/gov/types/params.go: EGF 10% / 14 days / 40%; erc20 types 0% / 7 days / 25% *)
 Definition ty_toggle : Z := 4.
@@ -225,4 +226,46 @@ Theorem share_nonvacuous :
   view kf_fixed (h_share ++ [ODeposit 30 1 12 (FXu 100) false]) 1
     = Some (SVoting, FXu 100100 - 1, 30, 30 + 14 * day, false, 0) /\
   option_map p_act_req (find_in kf_fixed (h_share ++ [ODeposit 30 1 12 (FXu 100) false]) 1) = Some [(fx, FXu 100000)].
+Proof. vm_compute. repeat split; reflexivity. Qed.
+
+(* ------------------------------------------------------------------ undecodable proposal records (finding C15-3) *)
+Definition P0fix : params :=
+  {| min_deposit := min_deposit P0; exp_min_deposit := exp_min_deposit P0;
+     max_deposit_period := max_deposit_period P0; voting_period := voting_period P0;
+     exp_voting_period := exp_voting_period P0; quorum := quorum P0; threshold := threshold P0;
+     exp_threshold := exp_threshold P0; veto_threshold := veto_threshold P0;
+     min_initial_ratio := min_initial_ratio P0; min_deposit_ratio := min_deposit_ratio P0;
+     cancel_ratio := cancel_ratio P0; cancel_dest := cancel_dest P0;
+     burn_prevote := burn_prevote P0; burn_quorum := burn_quorum P0; burn_veto := burn_veto P0;
+     bad_inactive_dequeued := true; bad_active_dequeued_by_key := true |}.
+
+(* proposal 1 is in its deposit period, proposal 2 in voting; one of them becomes undecodable *)
+Definition h_bad (which : Z) : list op :=
+  [OSubmit 10 10 [text_msg] (FXu 5000) false true false;
+   OSubmit 10 11 [text_msg] (FXu 10000) false true false;
+   OCorrupt which;
+   ODeposit 20 which 12 (FXu 5000) false;
+   OEndBlock (10 + 14 * day) stk0].
+
+Definition outcome (P : params) (ops : list op) :=
+  let s := fst (run P kf_code (init bal0 cust0) ops) in
+  (map (fun p => (p_id p, p_status p)) (props s), gov_bal s, bal s 10, bal s 11,
+   fst (fst (step P kf_code s (OEndBlock (11 + 14 * day) stk0)))).
+
+(* As the code is: the deposit-period proposal is refunded and deleted, its queue entry stays
+   (SStale) and the next end blocker fails; the voting-period proposal makes the end blocker fail at
+   once (the state stays as it was: that block can never be finalized). *)
+Theorem undecodable_refuted :
+  outcome P0 (h_bad 1) = ([(1, SStale); (2, SRejected)], 0, FXu 1000000, FXu 1000000, RHalt) /\
+  (let s := fst (run P0 kf_code (init bal0 cust0) (firstn 4 (h_bad 2))) in
+   fst (fst (step P0 kf_code s (OEndBlock (10 + 14 * day) stk0))) = RHalt) /\
+  fst (fst (step P0 kf_code (fst (run P0 kf_code (init bal0 cust0) (firstn 3 (h_bad 1)))) (ODeposit 20 1 12 (FXu 5000) false)))
+    = RErr EInvalid.
+Proof. vm_compute. repeat split; reflexivity. Qed.
+
+(* With the queue entries removed by the walk's key (the proposed patch): refund, deletion resp.
+   FAILED status, and the next end blocker runs. *)
+Theorem undecodable_designated_outcome :
+  outcome P0fix (h_bad 1) = ([(1, SDropped); (2, SRejected)], 0, FXu 1000000, FXu 1000000, ROk) /\
+  outcome P0fix (h_bad 2) = ([(1, SDropped); (2, SFailedBad)], 0, FXu 1000000, FXu 1000000, ROk).
 Proof. vm_compute. repeat split; reflexivity. Qed.
